@@ -37,6 +37,7 @@ class Mon(object):
 
 BODIES = corpus.update_bodies()
 EXTRA = [['raw', 4, 1], ['raw', 3, 1], ['raw', 3, 0], ['raw', 5, 3], ['raw', 128, 5], ['raw', 1, 5], ['raw', 2, 3],
+         ['notif', 'other', 6, 2, '03fffefd'], ['notif', 'other', 6, 4, 'c3'], ['notif', 'other', 7, 1, ''],
          ['rest-update'], ['rest-rr'], ['rest-bin'], ['queue-update'], ['rest-rr-unsupported'], ['rest-update-bad'],
          ['rest-rr-malformed'], ['rest-update-late'], ['rest-bin-late']]
 
@@ -44,9 +45,9 @@ EXTRA = [['raw', 4, 1], ['raw', 3, 1], ['raw', 3, 0], ['raw', 5, 3], ['raw', 128
 def enabled(d):
     ev = d.enabled()
     if d.live():
-        ev += [list(e) for e in EXTRA[:7]]
+        ev += [list(e) for e in EXTRA[:10]]
     if d.sim.state == 'ESTABLISHED':
-        ev += [list(e) for e in EXTRA[7:]]
+        ev += [list(e) for e in EXTRA[10:]]
         ev.append(['updv'])       # a well-formed UPDATE of some family / route type: ['updv', k] = corpus body k
     return ev
 
